@@ -20,9 +20,17 @@ META = {
                   "pending multiset is exact, pop/get/front give a minimum-priority pending item, emptiness is exact "
                   "(heap-order invariant of the heapq sift algorithms proved for any strict weak order; the comparator and "
                   "wrapper plumbing are regenerated from the source on every run and the instance lemmas are re-proved). "
+                  "Histories start with the constructor on any element list (duplicates collapse); UnionFind.add and __init__ are "
+                  "regenerated from the source (add by symbolic execution of its body) and proved equal to the model's; path "
+                  "compression is proved free (any sequence of parent-to-grandparent shortcuts - halving, splitting, full "
+                  "compression - leaves every query answer unchanged; find's loop is one); the queue checker evaluated by the "
+                  "correspondence batches is proved to accept exactly the runs of the multiset specification (any minimum-priority "
+                  "pending item, whatever the tie-break). "
                   "The hand-written part of the model is tied to the code by kernel-evaluated correspondence batches on "
                   "generated histories (ints, tuples, strings, mixed; ties, negatives, infinities).",
-    "level_note": "Trusted: Coq kernel + vm_compute; the priority_queue translator; the correspondence harness "
+    "level_note": "Tested only (correspondence + oracle, not proved about the source): that the hand-written find/union/views of "
+                  "Model.v mirror unionfind.py and that CPython's heapq behaves as the modelled sift algorithms. "
+                  "Trusted: Coq kernel + vm_compute; the priority_queue / unionfind translators; the correspondence harness "
                   "(generators, driver canonicalisation, interning of hashable elements as integer codes); CPython's "
                   "heapq is modelled from Lib/heapq.py, dict/list semantics assumed. UnionFind.__setitem__ (overwriting a "
                   "stored element in place) is outside the operation set: the property is about add/union/find and "
